@@ -755,6 +755,8 @@ def run(model, tier):
     sites += sedov_site(model, res)
     sites += mader_site(model, res)
     sites += ehep_site(model, res)
+    from . import c02_ehep
+    c02_ehep.edges(model, res)          # every shared edge of the EHEP x-t diagram: continuous, or a jump with the edge's speed
     sites += sdrz_site(model, res)
     sites += geneos_site(model, res)
     sites += blackbox_sites(model, res)
